@@ -373,6 +373,45 @@ theorem C02_source_write_operations_on_ring (fuel : Nat) (g : GoSrc.T_encoder) (
     (fun dist => (GoSrcP.encoderDict_ByteAt_ring g.dict m hb hh hhl dist).1)
     (fun k => (m.byteAt k).toNat_lt) hcl hL hfuel).1 l
 
+/-- composition with the operation-level encoder of this framework (`encStep`, Codec/LzmaDec.lean — the object of
+    `C02_strict_segment` and of the writer theorems): when position and `ByteAt` of the encoder dictionary are the history's and
+    the byte limit is not hit, one `writeLiteral` / `writeMatch` call from the source computes exactly the pair
+    `encPath tbl e (opEnc (mkCtx p s h) op)` and the state `s.apply op` that `encStep` computes for that operation -/
+theorem C02_source_write_is_encStep (fuel : Nat) (g : GoSrc.T_encoder) (s : St) (tbl : Tbl) (p : Props) (e : Rc.Enc) (Lim : Nat)
+    (h : Hist)
+    (sr : GoSrcP.StRel g.state s tbl p) (rel : GoSrcP.EncRel g.re e Lim) (rest : e.Rest)
+    (hpos : (GoSrc.encoderDict_Pos g.dict).toNat = h.pos) (hposlt : h.pos < 2 ^ 62)
+    (hbat : ∀ dist : BitVec 64, GoSrc.encoderDict_ByteAt g.dict dist = Go.Res.ok (BitVec.ofNat 8 (h.byteAt dist.toInt.toNat)))
+    (hbat256 : ∀ k, h.byteAt k < 256)
+    (hcl : e.cacheLen + 400 < 2 ^ 62) (hL : Lim < 2 ^ 63) (hfuel : e.cacheLen + 400 ≤ fuel) :
+    (∀ (l : GoSrc.T_lit) (tbl' : Tbl) (e' : Rc.Enc),
+      GoSrcP.encPathL Lim tbl e (opEnc (mkCtx p s h) (.lit l.b.toNat)) = some (tbl', e') →
+      encPath tbl e (opEnc (mkCtx p s h) (.lit l.b.toNat)) = (tbl', e') ∧
+      ∃ g', GoSrc.encoder_writeLiteral fuel g l = Go.Res.ok (Go.Err.nil, g')
+        ∧ GoSrcP.StRel g'.state (s.apply (.lit l.b.toNat)) tbl' p ∧ GoSrcP.EncRel g'.re e' Lim ∧ e'.Rest) ∧
+    (∀ (m : GoSrc.T_match) (dist n : Nat) (tbl' : Tbl) (e' : Rc.Enc),
+      m.distance = BitVec.ofNat 64 dist → m.n = BitVec.ofNat 64 n → 1 ≤ dist → dist ≤ 2 ^ 32 →
+      ((2 ≤ n ∧ n ≤ 273) ∨ (dist - 1 = s.r0 ∧ n = 1)) →
+      GoSrcP.encPathL Lim tbl e (opEnc (mkCtx p s h) (W2.classify s (.mtch dist n))) = some (tbl', e') →
+      encPath tbl e (opEnc (mkCtx p s h) (W2.classify s (.mtch dist n))) = (tbl', e') ∧
+      ∃ g', GoSrc.encoder_writeMatch fuel g m = Go.Res.ok (Go.Err.nil, g')
+        ∧ GoSrcP.StRel g'.state (s.apply (W2.classify s (.mtch dist n))) tbl' p ∧ GoSrcP.EncRel g'.re e' Lim ∧ e'.Rest) := by
+  have hw := C02_source_write_operations fuel g s tbl p e Lim h.pos h.byteAt sr rel rest hpos hposlt hbat hbat256 hcl hL hfuel
+  have hctx : GoSrcP.ctxOf p s h.pos h.byteAt = mkCtx p s h := rfl
+  rw [hctx] at hw
+  constructor
+  · intro l tbl' e' hp
+    have h1 := hw.1 l
+    rw [hp] at h1
+    obtain ⟨g', hg, hs, hr, hrest, _⟩ := h1
+    exact ⟨GoSrcP.encPathL_eq_encPath Lim tbl e _ tbl' e' hp, g', hg, hs, hr, hrest⟩
+  · intro m dist n tbl' e' hd hn hd1 hd2 hnr hp
+    have h1 := hw.2 m dist n hd hn hd1 hd2 hnr
+    dsimp only at h1
+    rw [hp] at h1
+    obtain ⟨g', hg, hs, hr, hrest, _⟩ := h1
+    exact ⟨GoSrcP.encPathL_eq_encPath Lim tbl e _ tbl' e' hp, g', hg, hs, hr, hrest⟩
+
 /-- the checked path is the codec's path whenever the limit is not hit (`encPath` of Codec/LzmaDec.lean) -/
 theorem C02_source_checked_path (L : Nat) (t : Tbl) (e : Rc.Enc) (π : Path) (t' : Tbl) (e' : Rc.Enc)
     (h : GoSrcP.encPathL L t e π = some (t', e')) : encPath t e π = (t', e') :=
